@@ -147,6 +147,10 @@ func c11GenDoc(r *Rng, tame bool) c11Doc {
 	for i := 0; i < nTop; i++ {
 		schemas[fmt.Sprintf("Top%d", i)] = add("top-level")
 	}
+	// a component that is an array of enum items (also as a request body below): the items need a type of their own
+	if r.Chance(50) {
+		schemas["List0"] = J{"type": "array", "items": add("top-level-array-item")}
+	}
 	// object with enum properties, array items
 	props := J{}
 	for i := 0; i < 1+r.Intn(2); i++ {
@@ -266,7 +270,7 @@ func c11Class(d c11Doc, missing string) string {
 }
 
 func runC11(ctx *Ctx) error {
-	ctx.Res.Rule = "RUN: seeded documents with enums at every position (top-level, property, array item, parameter, body, response) over value lists biased to collisions (case/punctuation variants, leading digits, keywords, blank, quotes/backslashes/newlines, duplicates, x-enum-varnames/x-enumNames of any length) x always-prefix x old-enum-conflicts; the generated file is type-checked with go/types and the multiset of {set of constant values per enum type} compared with the multiset of {set of distinct values per enum schema}; every constant is of its enum's named type; no redeclaration; CORR: SanitizeEnumNames and the string-literal rendering vs the Lean model; CORR: the constant blocks GenerateEnums renders for seeded sets of enums and types with clash-prone names (values spelled like types, like other enums' prefixed constants; always-prefix on/off; any order) vs EnumClash.resolveFix, and the statement on them (no constant twice, none named like a type); non-trivial = every document"
+	ctx.Res.Rule = "RUN: seeded documents with enums at every position (top-level, property, array item of a member and of a top-level array, parameter, body, response) over value lists biased to collisions (case/punctuation variants, leading digits, keywords, blank, quotes/backslashes/newlines, duplicates, x-enum-varnames/x-enumNames of any length) x always-prefix x old-enum-conflicts; the generated file is type-checked with go/types and the multiset of {set of constant values per enum type} compared with the multiset of {set of distinct values per enum schema}; every constant is of its enum's named type; no redeclaration; CORR: SanitizeEnumNames and the string-literal rendering vs the Lean model; CORR: the constant blocks GenerateEnums renders for seeded sets of enums and types with clash-prone names (values spelled like types, like other enums' prefixed constants; always-prefix on/off; any order) vs EnumClash.resolveFix, and the statement on them (no constant twice, none named like a type); non-trivial = every document"
 	if err := c11Corr(ctx, ctx.N(3000, 40000)); err != nil {
 		return err
 	}
